@@ -158,15 +158,30 @@ struct Dumper {
     void dumpStructs(raw_ostream &os) {
         // DI composite members by (name -> [(offsetBits, name, typeName)])
         std::map<std::string, std::vector<std::tuple<uint64_t, std::string, std::string>>> dim;
+        // every DI member with its bit offset, bit size, bit-field flag and signedness (bit-fields share one IR element)
+        std::map<std::string, std::string> dimem;
         DebugInfoFinder F; F.processModule(M);
         auto addComposite = [&](const std::string &nm, const DICompositeType *ct) {
             if (!ct || ct->getTag() != dwarf::DW_TAG_structure_type) return;
             if (dim.count(nm)) return;
             auto &v = dim[nm];
+            std::string mem;
             for (auto *e : ct->getElements())
                 if (auto *m = dyn_cast<DIDerivedType>(e))
-                    if (m->getTag() == dwarf::DW_TAG_member)
+                    if (m->getTag() == dwarf::DW_TAG_member) {
                         v.push_back({m->getOffsetInBits(), m->getName().str(), diTypeName(m->getBaseType())});
+                        bool sg = false;
+                        const DIType *bt = m->getBaseType();
+                        while (bt) {
+                            if (auto *b = dyn_cast<DIBasicType>(bt)) { sg = b->getEncoding() == dwarf::DW_ATE_signed || b->getEncoding() == dwarf::DW_ATE_signed_char; break; }
+                            if (auto *d = dyn_cast<DIDerivedType>(bt)) { bt = d->getBaseType(); continue; }
+                            break;
+                        }
+                        if (!mem.empty()) mem += ",";
+                        mem += "[" + jstr(m->getName().str()) + "," + std::to_string(m->getOffsetInBits()) + "," + std::to_string(m->getSizeInBits()) + "," +
+                               (m->isBitField() ? "true" : "false") + "," + (sg ? "true" : "false") + "]";
+                    }
+            dimem[nm] = mem;
         };
         for (auto *t : F.types()) {
             if (auto *ct = dyn_cast<DICompositeType>(t)) { if (!ct->getName().empty()) addComposite(ct->getName().str(), ct); }
@@ -206,7 +221,7 @@ struct Dumper {
                         if (std::get<0>(m) == sl->getElementOffsetInBits(i)) { mn = std::get<1>(m); mt = std::get<2>(m); break; }
                 os << "[" << jstr(mn) << "," << jstr(mt) << "]";
             }
-            os << "]}";
+            os << "],\"members\":[" << (dimem.count(key) ? dimem[key] : std::string()) << "]}";
         }
         os << "}";
     }
